@@ -38,7 +38,82 @@ def main(run: common.Run):
     run.extra.update(stats)
     run.extra["rule"] = ("one obligation per (program, halmos path, reference path) output comparison [O1] and per "
                          "reference path coverage [O2]; loaded values are the program's output bytes")
+    if not only or "symst" in only:
+        symbolic_storage_genericity(run)
     verify_tables(run)
+
+
+def symbolic_storage_genericity(run):
+    """With symbolic storage enabled, a load of a location that no earlier store of the path can have written must be an
+    unconstrained initial value: for two different constants c the solver must find inputs + initial storage with
+    PC and loaded == c.  (A load collapsing to the constant 0 makes the second query unsat.)"""
+    import z3
+
+    from lib import asm, exact, portfolio, progs
+    from lib.families import _mk
+
+    cd0, cd1 = [("PUSH", 4), "CALLDATALOAD"], [("PUSH", 36), "CALLDATALOAD"]
+
+    def mp(p, key):
+        return key + ["PUSH0", "MSTORE", ("PUSH", p), ("PUSH", 32), "MSTORE", ("PUSH", 64), "PUSH0", "SHA3"]
+
+    def arr(p, idx):
+        return [("PUSH", p), "PUSH0", "MSTORE", ("PUSH", 32), "PUSH0", "SHA3"] + idx + ["ADD"]
+
+    def out(k):
+        return [("PUSH", 0x400 + 32 * k), "MSTORE"]
+
+    progs_ = {
+        # m[a] = 5 ; load m[a+1]
+        "map-other-key": [("PUSH", 5)] + mp(2, cd0) + ["SSTORE"] + mp(2, cd0 + [("PUSH", 1), "ADD"]) + ["SLOAD"] + out(0),
+        "map-other-base": [("PUSH", 5)] + mp(2, cd0) + ["SSTORE"] + mp(3, cd0) + ["SLOAD"] + out(0),
+        "scalar-after-scalar": [("PUSH", 5), ("PUSH", 0), "SSTORE", ("PUSH", 1), "SLOAD"] + out(0),
+        "array-other-index": [("PUSH", 5)] + arr(1, [("PUSH", 0)]) + ["SSTORE"] + arr(1, [("PUSH", 1)]) + ["SLOAD"] + out(0),
+        "nothing-written": mp(2, cd1) + ["SLOAD"] + out(0),
+        "two-stores-then-third": [("PUSH", 5)] + mp(2, cd0) + ["SSTORE", ("PUSH", 6)] + mp(2, cd0 + [("PUSH", 1), "ADD"]) + [
+            "SSTORE"] + mp(2, cd0 + [("PUSH", 2), "ADD"]) + ["SLOAD"] + out(0),
+    }
+    for layout in ("solidity", "generic"):
+        for name, items in progs_.items():
+            key = f"symst/{layout}/{name}"
+            p = _mk(f"symst{layout[0]}#{name}", items + [("PUSH", 32), ("PUSH", 0x400), "RETURN"], features=(name,))
+            p.options, p.balances, p.callvalue_zero, p.storage_symbolic = {"storage_layout": layout}, (), True, True
+            try:
+                inp = progs.Inputs(p)
+                sevm, recs, hdata = progs.run_halmos(p, inp)
+            except Exception as e:
+                run.inconc("symbolic-storage", key, f"engine raised {type(e).__name__}: {e}")
+                continue
+            ok_paths = [(r, d) for r, d in zip(recs, hdata) if r.error is None and d is not None and len(d) == 32]
+            if not ok_paths:
+                run.inconc("symbolic-storage", key, "no successful path")
+                continue
+            for r, d in ok_paths:
+                w = z3.Concat(*[exact.inline(b) for b in d])
+                pc = [exact.inline(c) for c in r.conds]
+                verdicts = []
+                for c in (0, 0x5A5A5A5A):
+                    res = portfolio.solve(pc + [w == z3.BitVecVal(c, 256)], timeout=run.bounds.get("solver_cap_s", 20))
+                    run.note_solver(res)
+                    verdicts.append(res.status)
+                if verdicts == ["sat", "sat"]:
+                    run.ok("symbolic-storage", key)
+                elif "unsat" in verdicts:
+                    # confirm: the loaded word is forced to a single value on this path
+                    sw = z3.simplify(w)
+                    forced = str(sw)[:80] if z3.is_bv_value(sw) else "a value that cannot be " + hex(0 if verdicts[0] == "unsat" else 0x5A5A5A5A)
+                    res2 = portfolio.solve(pc + [w == z3.BitVecVal(0x5A5A5A5A if verdicts[1] == "unsat" else 0, 256)],
+                                           timeout=60, want_all=True)
+                    if res2.status == "unsat":
+                        run.violation("symbolic-storage", key,
+                                      f"[{p.name}] with symbolic storage the load of a never-written location is not an "
+                                      f"unconstrained initial value: it is forced to {forced}",
+                                      {"program": p.name, "code": p.contracts[progs.THIS].hex(), "options": p.options,
+                                       "verdicts": verdicts})
+                    else:
+                        run.inconc("symbolic-storage", key, f"solvers disagree on genericity: {verdicts} / {res2.answers}")
+                else:
+                    run.inconc("symbolic-storage", key, f"solver: {verdicts}")
 
 
 def verify_tables(run):
